@@ -385,8 +385,143 @@ def scen_repeat(env):
         env.check('no-nested-handling', False)
 
 
+SITES = ['none', 'enter-once-more', 'exit-old', 'exit-intermediate', 'cond', 'on-exit-old', 'on-enter-new', 'on-output',
+         'on-notrans', 'handler-fails', 'cond-rejects']
+
+
+def scen_fsm_chain(env, site, route, timer0=False):
+    """The FSM's own exception to the rule - ONE chained transition requested by an entry action (or a zero-length
+    timer) - and its limits: while the FSM handles 'go' (a -> b, the entry action of b - or b's zero-length timer -
+    chains to c), one further event is addressed to it from the given site, directly or through a relay block.
+    Every such event must be refused with an EdzedCircuitError that stops the simulation; without it the chained
+    transition is accepted, and afterwards the FSM takes a real event again (its state changes)."""
+    circ = sync_circuit()
+    log = []
+    data_v = env.int('v')
+    accept = env.bool('cond_result') if site == 'cond-rejects' else True
+
+    def extra(self_):
+        log.append('extra-attempt')
+        if route == 'direct':
+            return self_.event(Goto('d'))
+        return relay.event('fwd')
+
+    class Relay(edzed.SBlock):
+        def init_regular(self):
+            self.set_output(0)
+
+        def _event_fwd(self, **data):
+            log.append('relay')
+            return g.event(Goto('d'))
+
+    class G(edzed.FSM):
+        STATES = ['a', 'b', 'c', 'd']
+        EVENTS = [('go', 'a', 'b'), ('next', 'b', 'c'), ('back', None, 'a'), ('nowhere', 'a', None)]
+        TIMERS = {'b': (0.0, 'next')} if timer0 else {}
+
+        def cond_go(self):
+            log.append('cond_go')
+            if site == 'cond':
+                extra(self)
+            return accept
+
+        def exit_a(self):
+            log.append('exit_a')
+            if site == 'exit-old' and edzed.fsm_event_data.get().get('armed'):
+                extra(self)
+
+        def enter_b(self):
+            log.append('enter_b')
+            if not timer0:
+                self.event('next')
+            if site == 'enter-once-more':
+                extra(self)
+            if site == 'handler-fails':
+                raise RuntimeError('entry action failed')
+
+        def exit_b(self):
+            log.append('exit_b')
+            if site == 'exit-intermediate':
+                extra(self)
+
+        def enter_c(self):
+            log.append('enter_c')
+
+    relay = Relay('relay')
+    kw = {}
+    trip = edzed.Event('relay', 'fwd') if route == 'relay' else None
+    if site in ('on-exit-old', 'on-enter-new', 'on-output', 'on-notrans'):
+        if route == 'direct':
+            trip = edzed.Event('g', Goto('d'))
+        kw[{'on-exit-old': 'on_exit_a', 'on-enter-new': 'on_enter_c', 'on-output': 'on_output',
+            'on-notrans': 'on_notrans'}[site]] = edzed.Event(
+                trip.dest if False else ('relay' if route == 'relay' else 'g'), 'fwd' if route == 'relay' else Goto('d'),
+                efilter=[lambda d: (log.append('extra-attempt'), True)[1]] + ([edzed.not_from_undef] if site == 'on-output' else []))
+    g = G('g', **kw)
+    start_sync(circ)
+    env.check('chain-start', g.state == 'a' and circ.error is None)
+    exc = None
+    ret = None
+    try:
+        if site == 'on-notrans':
+            ret = g.event('nowhere', armed=True, value=data_v)
+        else:
+            ret = g.event('go', armed=True, value=data_v)
+    except Exception as err:
+        exc = err
+    attempted = 'extra-attempt' in log
+    if site == 'none' or (site == 'cond-rejects'):
+        env.check('site-reached', not attempted)
+    elif site == 'handler-fails':
+        env.check('site-reached', isinstance(exc, RuntimeError), info=lambda: (exc, log))
+    else:
+        env.check('site-reached', attempted, info=lambda: (site, route, log))
+    if site == 'handler-fails':
+        env.check('handler-error-stops', isinstance(circ.error, edzed.EdzedCircuitError), info=lambda: circ.error)
+    elif site == 'cond-rejects' and not accept:
+        env.note('chain-rejected-by-cond')
+        env.check('chain-rejected', ret is False and g.state == 'a' and exc is None and circ.error is None,
+                  info=lambda: (ret, g.state, exc))
+    elif attempted and site == 'enter-once-more' and timer0:
+        # here the entry action's request IS the single chained transition (the zero-length timer is then not started)
+        env.check('single-chained-transition-accepted', ret is True and exc is None and circ.error is None and g.state == 'd',
+                  info=lambda: (ret, exc, g.state, log))
+    elif attempted:
+        env.note('chain-extra-event-attempt')
+        env.check('chain-extra-event-refused', isinstance(exc, edzed.EdzedCircuitError) and
+                  isinstance(circ.error, edzed.EdzedCircuitError) and g.state != 'd' and 'enter_d' not in log,
+                  info=lambda: (site, route, exc, circ.error, g.state, log))
+    else:
+        env.note('chain-accepted')
+        env.check('single-chained-transition-accepted', ret is True and exc is None and circ.error is None and g.state == 'c'
+                  and log == ['cond_go', 'exit_a', 'enter_b', 'exit_b', 'enter_c'], info=lambda: (ret, exc, g.state, log))
+    # afterwards the block is not locked: a real event is taken and changes the state (not merely "not refused")
+    stale = getattr(g, '_next_event', None)
+    if circ.error is None or site == 'handler-fails':
+        try:
+            r2 = g.event('back')
+            ok = r2 is True and g.state == 'a'
+        except Exception as err:
+            ok = False
+            r2 = err
+        env.check('guard-released-real-event', ok and stale is None, info=lambda: (site, r2, g.state, stale))
+        try:
+            r3 = relay.event('no_such_event')
+            ok3 = False
+        except edzed.EdzedUnknownEvent:
+            ok3 = True
+        except Exception:
+            ok3 = False
+        env.check('guard-released', ok3)
+
+
 def shards(tier):
     out = [{'name': 'repeat loop', 'scenario': 'scen_repeat'}]
+    for site in SITES:
+        for route in (('direct',) if site in ('none', 'handler-fails', 'cond-rejects') else ('direct', 'relay')):
+            for timer0 in (False, True):
+                out.append({'name': f'fsm chain site={site} route={route} timer0={timer0}', 'scenario': 'scen_fsm_chain',
+                            'params': {'site': site, 'route': route, 'timer0': timer0}})
     nev = BOUNDS[tier]['external_events']
     for a in KINDS:
         out.append({'name': f'self {a}', 'scenario': 'scen_graph',
